@@ -178,7 +178,7 @@ Example C16_example_view :
               "invoke"
               [("INVOKE_RUN_ECHO", "1"); ("INVOKE_RUN_SHELL", "fish"); ("INVOKE_N", "7");
                ("INVOKE_RUN_OLD", "9"); ("INVOKE_NOPE", "x")]
-              (Err EOther) None in
+              (Err EOther) None [] in
   view_guard c = true /\
   pre c = Ok (Node [("run", Node [("echo", Leaf (VBool false)); ("shell", Leaf (VStr "zsh"))]);
                     ("n", Leaf (VInt 2)); ("tasks", Node [("dedupe", Leaf (VBool true))]);
@@ -188,4 +188,62 @@ Example C16_example_view :
   model_view c = Some (Node [("run", Node [("echo", Leaf (VBool true)); ("shell", Leaf (VStr "zsh"))]);
                              ("n", Leaf (VInt 7)); ("tasks", Node [("dedupe", Leaf (VBool true))]);
                              ("extra", Leaf (VStr "x"))]).
+Proof. vm_compute. repeat split; reflexivity. Qed.
+
+(** ** Settings whose value is an instance of a SUBCLASS of list / tuple / int / str
+    (Model/EnvSubModel.v, proofs in Proofs/C16_sub.v).  Environment._cast
+    dispatches with isinstance(), so the class only matters in the last branch
+    [old.__class__(new)]. *)
+From InvokeVerif Require Import Model.EnvSubModel Proofs.C16_sub.
+
+(** Conversion table of the model on subclass instances: list and tuple
+    subclasses (namedtuples included) are rejected, str subclasses (Enum members
+    included) take the text verbatim, an int subclass converts like int, an
+    IntEnum member refuses every text. *)
+Theorem C16_cast_subclass_table :
+  (forall v s, cast_py (Exact v) s = cast v s) /\
+  (forall k l s, cast_py (Sub k (VList l)) s = Err EUncastable) /\
+  (forall k l s, cast_py (Sub k (VTuple l)) s = Err EUncastable) /\
+  (forall k x s, cast_py (Sub k (VStr x)) s = Ok (VStr s)) /\
+  (forall z s, cast_py (Sub SubPlain (VInt z)) s =
+               match parse_int s with Some n => Ok (VInt n) | None => Err EValue end) /\
+  (forall z s, cast_py (Sub SubEnum (VInt z)) s = Err EValue).
+Proof. exact cast_py_table. Qed.
+
+(** Without subclass instances the class-aware model is the plain one. *)
+Theorem C16_load_py_no_subclass : forall t pfx env, load_py t [] pfx env = load t pfx env.
+Proof. exact load_py_nil. Qed.
+
+(** Guard (boolean): no setting is an IntEnum member
+    ([enum_int_free t subs]: no crawled setting is annotated [SubEnum] over an int).
+    Under it a configuration with subclass instances loads exactly like the
+    configuration of their base values.  Missing for full strength: an IntEnum
+    member setting refuses every text (ValueError) where the base int would
+    accept digits; the spec has no reading of "through their type" for Enum
+    classes, so such settings are only generated with non-numeric text. *)
+Theorem C16_subclass_projection_partial : forall t subs pfx env,
+  enum_int_free t subs = true -> load_py t subs pfx env = load t pfx env.
+Proof. exact load_py_projection. Qed.
+
+Theorem C16_load_py_meets_spec_partial : forall kids subs pfx env,
+  wf (Node kids) = true -> enum_int_free (Node kids) subs = true ->
+  spec_ok (Node kids) pfx env (load_py (Node kids) subs pfx env) = true.
+Proof. exact load_py_meets_spec. Qed.
+
+(** Non-vacuity: a list-subclass setting and a namedtuple setting are rejected,
+    a str-Enum and an int-subclass setting are applied; the guard holds.  And an
+    IntEnum member setting given digits is refused although its base value
+    would convert (the guard is false there). *)
+Example C16_example_subclass :
+  let t := Node [("deploy", Node [("hosts", Leaf (VList ["web1"; "web2"]))]); ("port", Leaf (VInt 22));
+                 ("mode", Leaf (VStr "fast")); ("ep", Leaf (VTuple ["localhost"; "22"]))] in
+  let subs := [(["deploy"; "hosts"], SubPlain); (["port"], SubPlain); (["mode"], SubEnum); (["ep"], SubPlain)] in
+  wf t = true /\ enum_int_free t subs = true /\
+  load_py t subs "INVOKE_" [("INVOKE_DEPLOY_HOSTS", "db1")] = Err EUncastable /\
+  load_py t subs "INVOKE_" [("INVOKE_EP", "db1")] = Err EUncastable /\
+  load_py t subs "INVOKE_" [("INVOKE_PORT", "2222"); ("INVOKE_MODE", "slow")]
+  = Ok [("port", Leaf (VInt 2222)); ("mode", Leaf (VStr "slow"))] /\
+  enum_int_free t [(["port"], SubEnum)] = false /\
+  load_py t [(["port"], SubEnum)] "INVOKE_" [("INVOKE_PORT", "2222")] = Err EValue /\
+  load t "INVOKE_" [("INVOKE_PORT", "2222")] = Ok [("port", Leaf (VInt 2222))].
 Proof. vm_compute. repeat split; reflexivity. Qed.
